@@ -698,7 +698,13 @@ func (m *Machine) callBuiltin(b *ssa.Builtin, args []Value, site *ssa.Call) Valu
 		}
 		switch y := args[1].(type) {
 		case Slice:
-			s, _ := args[0].(Slice)
+			if len(y) == 0 {
+				return args[0]
+			}
+			s, ok := args[0].(Slice)
+			if !ok && !isNilValue(args[0]) {
+				m.unsupported("append to %T", args[0])
+			}
 			cp := make(Slice, len(y))
 			for i, e := range y {
 				cp[i] = copyVal(e)
